@@ -338,6 +338,17 @@ func (v *FnVC) evalIdent(name string, env *Env) Term {
 			return t
 		}
 	}
+	if v.Fn != nil {
+		// a captured variable of a closure lives in its cell: read it in the state the expression is evaluated in
+		// (so that old(x) is the entry value, not the last value loaded)
+		for _, fv := range v.Fn.FreeVars {
+			if fv.Name() == name {
+				if p, ok := env.vars["&"+name]; ok && p.T != nil {
+					return v.load(env.st, v.locFromPtr(p.S, deref(p.T)))
+				}
+			}
+		}
+	}
 	if env.lookupAt != nil {
 		if t, ok := env.lookupAt(name, env.st); ok {
 			return t
@@ -975,14 +986,45 @@ func (v *FnVC) queueRec(sf *SpecFunc, args []Term, fuel int) {
 	if v.recApps[key] {
 		return
 	}
-	// quantified variables cannot be unfolded as ground instances
+	// an application to a quantified variable cannot be unfolded as a ground instance: the function gets its
+	// defining equation as a quantified axiom with the application as pattern (once per function)
 	for _, a := range as {
 		if strings.Contains(a, "q_") {
+			v.recQuantAxiom(sf)
 			return
 		}
 	}
 	v.recApps[key] = true
 	v.recQueue = append(v.recQueue, recApp{sf, args, fuel})
+}
+
+// recQuantAxiom: forall params. f(params) = body, pattern f(params). Evaluated over the entry heap like the ground
+// unfoldings. Instantiation is driven by the occurrences of f in the goal; failing goals come back unknown.
+func (v *FnVC) recQuantAxiom(sf *SpecFunc) {
+	if v.implFacts["recquant:"+sf.Name] {
+		return
+	}
+	v.implFacts["recquant:"+sf.Name] = true
+	specPkg := v.W.PkgTypes(sf.Pkg)
+	ne := &Env{v: v, vars: map[string]Term{}, st: v.entry, old: v.entry, pkg: specPkg}
+	var binds, as []string
+	for _, p := range sf.Params {
+		t, so := v.sortOfSpecType(p.Type, specPkg)
+		v.fresh++
+		name := fmt.Sprintf("q_rec_%s_%d", p.Name, v.fresh)
+		ne.vars[p.Name] = Term{S: name, Sort: so, T: t}
+		binds = append(binds, fmt.Sprintf("(%s %s)", name, so))
+		as = append(as, name)
+	}
+	fname := "sf_" + sanitize(sf.Name)
+	app := "(" + fname + " " + strings.Join(as, " ") + ")"
+	body := v.evalTerm(sf.Body, ne)
+	_, rso := v.sortOfSpecType(sf.Ret, specPkg)
+	if body.Sort == "Nil" {
+		body = v.nilOf(Term{Sort: rso})
+	}
+	v.asserts = append(v.asserts, fmt.Sprintf("(forall (%s) (! (= %s %s) :pattern (%s)))", strings.Join(binds, " "), app, body.S, app))
+	v.note("recursive spec function %s is applied to quantified arguments: defined by a quantified axiom (pattern-driven unfolding)", sf.Name)
 }
 
 // flushRec emits ground unfoldings f(args) = body[args] for queued applications.
@@ -1312,6 +1354,22 @@ func (v *FnVC) baseEnv() *Env {
 
 // addrOfLocal returns the address of an address-taken local variable by source name.
 func (v *FnVC) addrOfLocal(name string) (Term, bool) {
+	// a variable that lives in a cell (captured or address-taken): the unique allocation of that name
+	var found *ssa.Alloc
+	n := 0
+	for _, b := range v.Fn.Blocks {
+		for _, ins := range b.Instrs {
+			if a, ok := ins.(*ssa.Alloc); ok && a.Comment == name && a.Heap {
+				found = a
+				n++
+			}
+		}
+	}
+	if n == 1 {
+		if _, defined := v.vals[found]; defined {
+			return Term{S: v.val(found).S, Sort: "Int", T: found.Type()}, true
+		}
+	}
 	for _, b := range v.Fn.Blocks {
 		for _, ins := range b.Instrs {
 			d, ok := ins.(*ssa.DebugRef)
